@@ -1,7 +1,7 @@
 (* C03 parts (b) and (c) - property theorems only.  Same closed system and hypotheses as C01. *)
 From Elvis Require Import Model.Base Model.U32 Model.Tcb Model.TcpNet
   Proofs.TcbSafetyDefs Proofs.TcbSafetyThms Proofs.TcbLiveThm Proofs.TcbLiveEnd Proofs.TcbLiveWinRound
-  Proofs.TcbLiveCloseSys Proofs.TcbLiveClose2Sys.
+  Proofs.TcbLiveCloseSys Proofs.TcbLiveClose2Sys Proofs.TcbLiveWin Proofs.TcbLiveFinData Proofs.TcbLiveFinDataSys Proofs.TcbLiveClose3Sys.
 Local Open Scope Z_scope.
 
 (* (b) when both sides are synchronised, each side's IRS is the peer's ISS and its next expected
@@ -89,3 +89,54 @@ Theorem C03_connection_lifecycle_simultaneous_partial :
   forall x, sub_of s x = concat (chunks x ws) /\ delivered s (other x) = concat (chunks x ws).
 Proof. exact lifecycle_simultaneous_explicit. Qed.
 Print Assumptions C03_connection_lifecycle_simultaneous_partial.
+
+(* (c) at system level, with an explicit trace: side x writes up to one window of bytes and closes AT
+   ONCE, while the text is still queued (the TCB goes to FIN-WAIT-1 with the FIN deferred).  One
+   emission puts on the wire a flight of contiguous data segments ([flight]: plain ACK headers, no
+   FIN bit, sequence numbers from p) carrying exactly the written bytes, FOLLOWED by a single FIN
+   whose sequence number is p + n, right after the last byte.  After in-order delivery and a read,
+   the peer's application has received every byte, the peer is in CLOSE-WAIT with RCV.NXT = p + n + 1
+   (data and FIN consumed, in that order) and nothing is left in the network or the reassembly heap.
+   From EVERY quiescent state, either side.  (Partial w.r.t. the whole close: the way back - the
+   peer's ACKs, FIN-WAIT-2, the peer's own close and the release of both TCBs - is proved only for a
+   close issued with nothing queued, see C03_release_* (A first, both at once, B first).) *)
+Theorem C03_close_with_queued_data_partial : forall (c : config) (s : sys) (a b : Z) (x : side) (bytes : list Z),
+  Quiescent c s a b -> 0 < zlen bytes <= 65535 ->
+  let n := zlen bytes in
+  let p := sel x a b in
+  let q := sel x b a in
+  let s1 := run c s [LSend x bytes; LClose x; LEmit x] in
+  let s2 := run c s1 (repeat (LDeliver x 0) (length (net_of s1 x)) ++ [LRecv (other x)]) in
+  (exists lp rp segs, net_of s1 x = segs ++ [mkSeg (fin_hdr lp rp (wadd p n) q) []] /\
+      flight lp rp q p segs /\ flight_bytes segs = bytes) /\
+  (exists tx ty, end_of s2 x = ELive tx /\ end_of s2 (other x) = ELive ty /\
+      st tx = FinWait1 /\ snd_una tx = p /\ snd_nxt tx = wadd (wadd p n) 1 /\ out_text tx = [] /\
+      st ty = CloseWait /\ rcv_nxt ty = wadd (wadd p n) 1 /\ in_text ty = [] /\ in_segs ty = []) /\
+  net_of s2 x = [] /\ net_of s2 (other x) = [] /\ panicked s2 = false /\
+  sub_of s2 x = sub_of s x ++ bytes /\ sub_of s2 (other x) = sub_of s (other x) /\
+  delivered s2 (other x) = delivered s (other x) ++ bytes /\ delivered s2 x = delivered s x.
+Proof. exact close_after_write_explicit. Qed.
+Print Assumptions C03_close_with_queued_data_partial.
+
+(* (d), B closes first: [close_trace_B] = [LClose SB; LFair 1; LClose SA; LFair 2; LTick SB 2001].
+   Not the mirror image of C03_release_sequential_partial, because in every round A's half still runs
+   first: A (ESTABLISHED -> CLOSE-WAIT -> LAST-ACK) sends the two ACKs of B's FIN and its own FIN with
+   its copy in ONE emission, so B goes FIN-WAIT-1 -> FIN-WAIT-2 -> TIME-WAIT within a single half-round;
+   B's ACKs then delete A's TCB, and B is released by its 2*MSL timer.  From EVERY quiescent state. *)
+Theorem C03_release_B_first_partial : forall (c : config) (s : sys) (a b : Z),
+  Quiescent c s a b ->
+  let s' := run c s close_trace_B in
+  endA s' = EDead /\ endB s' = EDead /\ netA s' = [] /\ netB s' = [] /\ panicked s' = false /\
+  subA s' = subA s /\ subB s' = subB s /\ delivered s' SA = delivered s SA /\ delivered s' SB = delivered s SB.
+Proof. exact release_B_explicit. Qed.
+Print Assumptions C03_release_B_first_partial.
+
+Theorem C03_connection_lifecycle_B_first_partial :
+  forall (c : config) (listenB : bool) (ws : list (side * list Z)),
+  u32 (issA c) -> u32 (issB c) -> 100 <= mtuA c <= 65535 -> 100 <= mtuB c <= 65535 ->
+  (forall w, In w ws -> 0 < zlen (snd w)) ->
+  let s := run c (init_sys listenB) (open_trace listenB ++ any_write_trace ws ++ close_trace_B) in
+  endA s = EDead /\ endB s = EDead /\ netA s = [] /\ netB s = [] /\ panicked s = false /\
+  forall x, sub_of s x = concat (chunks x ws) /\ delivered s (other x) = concat (chunks x ws).
+Proof. exact lifecycle_B_explicit. Qed.
+Print Assumptions C03_connection_lifecycle_B_first_partial.
